@@ -241,7 +241,9 @@ Classified classify(const PlanView &v, bool needWritten) {
     }
     if (d != hexref::D_OK) { c.why = hexref::domainName(d); return c; }
     m.step();
-    if (m.last.maxAddr >= HW) {
+    // C13 is about hextb alone, whose memory has 2^19 words: a stack above hexsim's 200000 words is
+    // as good as any (the model is RTL-sized).  C06 compares with hexsim and stays below.
+    if (m.last.maxAddr >= HW && v.mode != "c13") {
       // The exit stub stores to and reads back word 200001 (sp+2 with the initial sp of 199999): C06
       // and C13 cover such binaries explicitly.  Anything else above hexsim's array is outside.
       // Only the stub itself ("STAI 2; LDAC 0; OPR SVC" and the EXIT that reads the slot back): any other
